@@ -5,6 +5,7 @@ import (
 	"flag"
 	"fmt"
 	"os"
+	"path/filepath"
 	"strings"
 	"time"
 
@@ -83,7 +84,22 @@ func cmdRun(args []string) {
 	if *timeout > 0 {
 		cfg.Deadline = time.Now().Add(time.Duration(*timeout) * time.Second)
 	}
-	ov := interp.RepoOverlay(*repo, *verif, parseOverlay(*overlay))
+	extra := parseOverlay(*overlay)
+	genVirt := filepath.Join(*repo, "model", "zz_verif_gen_model.go")
+	if _, ok := extra[genVirt]; !ok {
+		os.MkdirAll(filepath.Join(*verif, ".work"), 0o755)
+		tmp, err := os.MkdirTemp(filepath.Join(*verif, ".work"), "gen-")
+		if err == nil {
+			defer os.RemoveAll(tmp)
+			if f, err := genModel(*repo, tmp, extra); err == nil {
+				extra[genVirt] = f
+			} else {
+				fmt.Fprintln(os.Stderr, "generator:", err)
+				os.Exit(3)
+			}
+		}
+	}
+	ov := interp.RepoOverlay(*repo, *verif, extra)
 	t0 := time.Now()
 	P, err := interp.LoadProgram(*repo, ov, []string{"./" + *pkg})
 	if err != nil {
